@@ -485,6 +485,9 @@ def finish(pid, tier, seed, agg, t0, *, rule, exhaustive, assumptions,
             knownhits.append((k, v))
         else:
             new.append(v)
+    if os.environ.get("VERIF_DUMP"):
+        with open(os.environ["VERIF_DUMP"], "w") as f:
+            json.dump(new, f, indent=1, default=str)
     # determinism / reality check: a violation must reproduce when the single
     # case is re-executed without the explorer, twice.
     if replay_fn is not None:
